@@ -240,7 +240,7 @@ func (s *SelectStatement) Format(opts FormatOptions) string {
 		sb.WriteString(" ")
 		wins := make([]string, len(s.Windows))
 		for i := range s.Windows {
-			wins[i] = s.Windows[i].Name + " AS (" + windowSpecSQL(&s.Windows[i]) + ")"
+			wins[i] = safeIdentifier(s.Windows[i].Name) + " AS (" + windowSpecSQL(&s.Windows[i]) + ")"
 		}
 		sb.WriteString(strings.Join(wins, ", "))
 	}
@@ -292,7 +292,7 @@ func (i *InsertStatement) Format(opts FormatOptions) string {
 
 	sb.WriteString(f.kw("INSERT INTO"))
 	sb.WriteString(" ")
-	sb.WriteString(i.TableName)
+	sb.WriteString(nameSQL(i.TableName))
 
 	if len(i.Columns) > 0 {
 		sb.WriteString(" (")
@@ -355,10 +355,10 @@ func (u *UpdateStatement) Format(opts FormatOptions) string {
 
 	sb.WriteString(f.kw("UPDATE"))
 	sb.WriteString(" ")
-	sb.WriteString(u.TableName)
+	sb.WriteString(nameSQL(u.TableName))
 	if u.Alias != "" {
 		sb.WriteString(" ")
-		sb.WriteString(u.Alias)
+		sb.WriteString(safeIdentifier(u.Alias))
 	}
 
 	sb.WriteString(f.clauseSep())
@@ -417,10 +417,10 @@ func (d *DeleteStatement) Format(opts FormatOptions) string {
 
 	sb.WriteString(f.kw("DELETE FROM"))
 	sb.WriteString(" ")
-	sb.WriteString(d.TableName)
+	sb.WriteString(nameSQL(d.TableName))
 	if d.Alias != "" {
 		sb.WriteString(" ")
-		sb.WriteString(d.Alias)
+		sb.WriteString(safeIdentifier(d.Alias))
 	}
 
 	if len(d.Using) > 0 {
@@ -475,7 +475,7 @@ func (c *CreateTableStatement) Format(opts FormatOptions) string {
 		sb.WriteString(f.kw("IF NOT EXISTS"))
 		sb.WriteString(" ")
 	}
-	sb.WriteString(c.Name)
+	sb.WriteString(nameSQL(c.Name))
 
 	if opts.NewlinePerClause {
 		sb.WriteString(" (\n")
@@ -513,14 +513,14 @@ func (c *CreateTableStatement) Format(opts FormatOptions) string {
 		sb.WriteString(" ")
 		sb.WriteString(f.kw("INHERITS"))
 		sb.WriteString(" (")
-		sb.WriteString(strings.Join(c.Inherits, ", "))
+		sb.WriteString(nameListSQL(c.Inherits))
 		sb.WriteString(")")
 	}
 
 	if c.PartitionBy != nil {
 		sb.WriteString(" ")
 		sb.WriteString(f.kw("PARTITION BY"))
-		fmt.Fprintf(sb, " %s (%s)", c.PartitionBy.Type, strings.Join(c.PartitionBy.Columns, ", "))
+		fmt.Fprintf(sb, " %s (%s)", c.PartitionBy.Type, nameListSQL(c.PartitionBy.Columns))
 	}
 
 	for _, opt := range c.Options {
@@ -581,7 +581,7 @@ func (a *AlterTableStatement) Format(opts FormatOptions) string {
 
 	sb.WriteString(f.kw("ALTER TABLE"))
 	sb.WriteString(" ")
-	sb.WriteString(a.Table)
+	sb.WriteString(nameSQL(a.Table))
 
 	for i, action := range a.Actions {
 		if i > 0 {
@@ -597,7 +597,7 @@ func (a *AlterTableStatement) Format(opts FormatOptions) string {
 			sb.WriteString(tableConstraintSQL(action.Constraint))
 		} else if action.ColumnName != "" {
 			sb.WriteString(" ")
-			sb.WriteString(action.ColumnName)
+			sb.WriteString(safeIdentifier(action.ColumnName))
 		}
 	}
 
@@ -628,11 +628,11 @@ func (c *CreateIndexStatement) Format(opts FormatOptions) string {
 		sb.WriteString(f.kw("IF NOT EXISTS"))
 		sb.WriteString(" ")
 	}
-	sb.WriteString(c.Name)
+	sb.WriteString(nameSQL(c.Name))
 	sb.WriteString(" ")
 	sb.WriteString(f.kw("ON"))
 	sb.WriteString(" ")
-	sb.WriteString(c.Table)
+	sb.WriteString(nameSQL(c.Table))
 
 	if c.Using != "" {
 		sb.WriteString(" ")
@@ -644,7 +644,7 @@ func (c *CreateIndexStatement) Format(opts FormatOptions) string {
 	sb.WriteString(" (")
 	cols := make([]string, len(c.Columns))
 	for i, col := range c.Columns {
-		s := col.Column
+		s := nameSQL(col.Column)
 		if col.Collate != "" {
 			s += " " + f.kw("COLLATE") + " " + col.Collate
 		}
@@ -697,11 +697,11 @@ func (c *CreateViewStatement) Format(opts FormatOptions) string {
 		sb.WriteString(f.kw("IF NOT EXISTS"))
 		sb.WriteString(" ")
 	}
-	sb.WriteString(c.Name)
+	sb.WriteString(nameSQL(c.Name))
 
 	if len(c.Columns) > 0 {
 		sb.WriteString(" (")
-		sb.WriteString(strings.Join(c.Columns, ", "))
+		sb.WriteString(nameListSQL(c.Columns))
 		sb.WriteString(")")
 	}
 
@@ -740,11 +740,11 @@ func (c *CreateMaterializedViewStatement) Format(opts FormatOptions) string {
 		sb.WriteString(f.kw("IF NOT EXISTS"))
 		sb.WriteString(" ")
 	}
-	sb.WriteString(c.Name)
+	sb.WriteString(nameSQL(c.Name))
 
 	if len(c.Columns) > 0 {
 		sb.WriteString(" (")
-		sb.WriteString(strings.Join(c.Columns, ", "))
+		sb.WriteString(nameListSQL(c.Columns))
 		sb.WriteString(")")
 	}
 
@@ -794,7 +794,7 @@ func (r *RefreshMaterializedViewStatement) Format(opts FormatOptions) string {
 		sb.WriteString(f.kw("CONCURRENTLY"))
 		sb.WriteString(" ")
 	}
-	sb.WriteString(r.Name)
+	sb.WriteString(nameSQL(r.Name))
 
 	if r.WithData != nil {
 		sb.WriteString(f.clauseSep())
@@ -828,7 +828,7 @@ func (d *DropStatement) Format(opts FormatOptions) string {
 		sb.WriteString(f.kw("IF EXISTS"))
 		sb.WriteString(" ")
 	}
-	sb.WriteString(strings.Join(d.Names, ", "))
+	sb.WriteString(nameListSQL(d.Names))
 
 	if d.CascadeType != "" {
 		sb.WriteString(" ")
@@ -854,7 +854,7 @@ func (t *TruncateStatement) Format(opts FormatOptions) string {
 	sb.WriteString(" ")
 	sb.WriteString(f.kw("TABLE"))
 	sb.WriteString(" ")
-	sb.WriteString(strings.Join(t.Tables, ", "))
+	sb.WriteString(nameListSQL(t.Tables))
 
 	if t.RestartIdentity {
 		sb.WriteString(" ")
@@ -911,7 +911,7 @@ func (m *MergeStatement) Format(opts FormatOptions) string {
 	sb.WriteString(tableRefSQL(&m.TargetTable))
 	if m.TargetAlias != "" {
 		sb.WriteString(" ")
-		sb.WriteString(m.TargetAlias)
+		sb.WriteString(safeIdentifier(m.TargetAlias))
 	}
 
 	sb.WriteString(f.clauseSep())
@@ -920,7 +920,7 @@ func (m *MergeStatement) Format(opts FormatOptions) string {
 	sb.WriteString(tableRefSQL(&m.SourceTable))
 	if m.SourceAlias != "" {
 		sb.WriteString(" ")
-		sb.WriteString(m.SourceAlias)
+		sb.WriteString(safeIdentifier(m.SourceAlias))
 	}
 
 	sb.WriteString(f.clauseSep())
@@ -961,7 +961,7 @@ func (m *MergeStatement) Format(opts FormatOptions) string {
 				sb.WriteString(" ")
 				sets := make([]string, len(when.Action.SetClauses))
 				for i, sc := range when.Action.SetClauses {
-					sets[i] = sc.Column + " = " + exprSQL(sc.Value)
+					sets[i] = nameSQL(sc.Column) + " = " + exprSQL(sc.Value)
 				}
 				sb.WriteString(strings.Join(sets, ", "))
 			case "DELETE":
@@ -974,7 +974,7 @@ func (m *MergeStatement) Format(opts FormatOptions) string {
 				} else {
 					if len(when.Action.Columns) > 0 {
 						sb.WriteString(" (")
-						sb.WriteString(strings.Join(when.Action.Columns, ", "))
+						sb.WriteString(nameListSQL(when.Action.Columns))
 						sb.WriteString(")")
 					}
 					if len(when.Action.Values) > 0 {
@@ -1135,9 +1135,9 @@ func formatWith(w *WithClause, f *formatter) string {
 	}
 	ctes := make([]string, len(w.CTEs))
 	for i, cte := range w.CTEs {
-		s := cte.Name + " "
+		s := safeIdentifier(cte.Name) + " "
 		if len(cte.Columns) > 0 {
-			s += "(" + strings.Join(cte.Columns, ", ") + ") "
+			s += "(" + nameListSQL(cte.Columns) + ") "
 		}
 		s += f.kw("AS") + " ("
 		if qs, ok := cte.Statement.(Formatter); ok {
